@@ -1622,7 +1622,10 @@ def determine_quote_strategy(s):
 
 
 def escape_str_for_quote(use_quote, s):
-    escaped_with_quotes = repr(s)
+    # Not repr(s): a str/bytes subclass may override __repr__.
+    escaped_with_quotes = (
+        str.__repr__(s) if isinstance(s, str) else bytes.__repr__(s)
+    )
     repr_used_quote = escaped_with_quotes[-1]
 
     # string may have a prefix
